@@ -16,9 +16,9 @@ func init() {
 			"(before-gate) every task list computed by calculateNextTasks passes getHitKey(…, interruptBeforeNodes) before it can reach submit, and a non-empty hit list cannot reach submit; task lists handed to handleInterrupt have their hit keys in the reported before-list; restoreTasks results (explicit resume) are exempt; " +
 			"(after-gate) every completed-task list passes resolveInterruptCompletedTasks before calculateNextTasks, and once an interrupt-after key was recorded no path reaches submit; " +
 			"(checkpoint-iff-interrupt) checkPointer.set is called only from the two interrupt handlers, on the top-level arm with an id it precedes the interruptError return, interrupt errors are built only there; " +
-			"(unwrapped) interrupt errors pass wrapGraphNodeError/wrapStreamWrapperError unchanged and run returns the handlers' result directly; ExtractInterruptInfo uses errors.As; " +
+			"(handler-args) the mode flags and the checkpoint id reach every callee of run in their own positions; (unwrapped) interrupt errors pass wrapGraphNodeError/wrapStreamWrapperError unchanged and run returns the handlers' result directly; ExtractInterruptInfo uses errors.As; " +
 			"(sentinel-match) the InterruptAndRerun sentinel is matched with errors.Is, never ==.",
-		decided:    []string{"before-gate", "after-gate", "checkpoint-iff-interrupt", "unwrapped", "sentinel-match"},
+		decided:    []string{"before-gate", "after-gate", "checkpoint-iff-interrupt", "handler-args", "unwrapped", "sentinel-match"},
 		notDecided: []string{"eager-mode timing of 'stops before any successor starts' beyond the two gates", "content of InterruptInfo for nested graphs", "behaviour of the checkpoint store"},
 		run:        runC06,
 	})
@@ -400,6 +400,56 @@ func runC06(w *World, r *Report) {
 		r.Check(used, "C06.checkpoint-iff-interrupt", w.fname(h)+" checks set error", sets[0].Pos(), "error of checkPointer.set is tested", "error of checkPointer.set is dropped")
 	}
 
+	// ---- handler-args: mode flags reach the interrupt handlers (and every callee of run) unswapped
+	r.Rule("C06.handler-args", "isStream / isSubGraph / checkPointID are passed to every callee of run in their own parameter positions", 6)
+	{
+		isStreamP := run.Params[paramIndex(run, "isStream")]
+		gnk := w.Fn("compose", "getNodeKey")
+		gcpi := w.Fn("compose", "getCheckPointInfo")
+		is := func(v ssa.Value, want string) bool {
+			for _, a := range aliasesBack(v) {
+				switch want {
+				case "isStream":
+					if a == ssa.Value(isStreamP) {
+						return true
+					}
+				case "isSubGraph":
+					if e, ok := a.(*ssa.Extract); ok && e.Index == 1 {
+						if c, ok := e.Tuple.(*ssa.Call); ok && isCallTo(c, gnk) {
+							return true
+						}
+					}
+				case "checkPointID":
+					if e, ok := a.(*ssa.Extract); ok && e.Index == 0 {
+						if c, ok := e.Tuple.(*ssa.Call); ok && isCallTo(c, gcpi) {
+							return true
+						}
+					}
+				}
+			}
+			return false
+		}
+		instrs(run, func(in ssa.Instruction) {
+			c, ok := in.(*ssa.Call)
+			if !ok {
+				return
+			}
+			sc := staticCallee(c)
+			if sc == nil || !w.inRepo(sc) {
+				return
+			}
+			for i, p := range sc.Params {
+				switch p.Name() {
+				case "isStream", "isSubGraph", "checkPointID":
+					if i >= len(c.Call.Args) {
+						continue
+					}
+					r.Check(is(c.Call.Args[i], p.Name()), "C06.handler-args", fmt.Sprintf("run -> %s(%s)", sc.Name(), p.Name()), c.Pos(), "receives run's own "+p.Name(), "parameter "+p.Name()+" of "+sc.Name()+" receives a different value (swapped mode flags: a top-level stream run is treated as a sub-graph, the interrupt is returned as a sub-graph error and no checkpoint is written)")
+				}
+			}
+		})
+	}
+
 	// ---- unwrapped
 	r.Rule("C06.unwrapped", "interrupt errors are never wrapped on their way out", 5)
 	isInt := w.Fn("compose", "isInterruptError")
@@ -496,4 +546,22 @@ func runC06(w *World, r *Report) {
 		}
 	}
 	_ = strings.Join
+}
+
+// aliasesBack: v and, when v is a load of a local cell, the values stored into that cell.
+func aliasesBack(v ssa.Value) []ssa.Value {
+	out := []ssa.Value{v}
+	if u, ok := v.(*ssa.UnOp); ok && u.Op == token.MUL {
+		if cell, ok := u.X.(*ssa.Alloc); ok {
+			for _, ref := range *cell.Referrers() {
+				if st, ok := ref.(*ssa.Store); ok && st.Addr == ssa.Value(cell) {
+					out = append(out, st.Val)
+				}
+			}
+		}
+	}
+	if phi, ok := v.(*ssa.Phi); ok {
+		out = append(out, phi.Edges...)
+	}
+	return out
 }
